@@ -22,7 +22,7 @@ def base_vad():
          "ports": [["a", "in", None, None], ["y", "out", 1, 0], ["\\esc.in", "in", None, None], ["b", "in", 2, 0]],
          "wires": [["w", 1, 0, {"keep": None}], ["\\q[3]", None, None], ["r", 5, 3]],
          "insts": [
-             {"name": "u0", "module": "leaf", "positional": True, "params": {"INIT": "8'h0F", "S": '"str"'},
+             {"name": "u0", "module": "leaf", "positional": True, "params": {"INIT": "8'h0F", "S": '"str"', "T": '"two  words and\ttab"'},
               "conns": [[None, [["net", "a"]]], [None, [["bit", "w", 0]]], [None, [["net", "y"]]]]},
              {"name": "\\inst/x", "module": "leaf", "attrs": {"dont_touch": '"true"'},
               "conns": [["i", [["net", "\\esc.in"]]], ["o", [["net", "\\q[3]"]]], ["d", [["bit", "w", 1], ["net", "\\q[3]"]]]]},
@@ -153,7 +153,7 @@ def cases(tier):
     out = []
     for order in itertools.permutations(range(3)):
         for style in ("header", "ansi"):
-            for comments in (False, True):
+            for comments in (False, True, "dense"):
                 for o in core.ORDER_VARIANTS:
                     out.append(("base", list(order), style, comments, o))
     for depth in (3, 4) if tier == "quick" else (3, 4, 5):
